@@ -1,0 +1,47 @@
+//go:build verif
+
+// Copyright © 2022-2026 Obol Labs Inc. Licensed under the terms of a Business Source License 1.1
+
+package cluster
+
+import (
+	k1 "github.com/decred/dcrd/dcrec/secp256k1/v4"
+)
+
+// Verification hooks (build tag verif): read-only access to the unexported hashing and signing
+// entry points of this package. No behaviour is added or changed.
+
+// VerifHashDefinition is hashDefinition: the config hash (configOnly) or definition hash of d as it is.
+func VerifHashDefinition(d Definition, configOnly bool) ([32]byte, error) {
+	return hashDefinition(d, configOnly)
+}
+
+// VerifHashLock is hashLock.
+func VerifHashLock(l Lock) ([32]byte, error) {
+	return hashLock(l)
+}
+
+// VerifSignOperator is signOperator.
+func VerifSignOperator(secret *k1.PrivateKey, def Definition, operator Operator) (Operator, error) {
+	return signOperator(secret, def, operator)
+}
+
+// VerifSignCreator is signCreator.
+func VerifSignCreator(secret *k1.PrivateKey, def Definition) (Definition, error) {
+	return signCreator(secret, def)
+}
+
+// VerifSupportEIP712Sigs is supportEIP712Sigs.
+func VerifSupportEIP712Sigs(version string) bool {
+	return supportEIP712Sigs(version)
+}
+
+// VerifSupportedVersions returns the keys of supportedVersions.
+func VerifSupportedVersions() []string {
+	var resp []string
+	for v := range supportedVersions {
+		resp = append(resp, v)
+	}
+
+	return resp
+}
